@@ -3,6 +3,7 @@
 -/
 import Puan.Model.Config
 import Puan.Lemmas.Negate
+import Puan.Props.C04
 namespace Puan.C18
 open Puan P Config
 
@@ -128,5 +129,43 @@ example :
   intro k r
   exact ⟨add_accepts _ _ _ _ _ _ r (by intro x hx; simp at hx; subst hx; simp [k, r, P.id]),
          add_refuses _ _ _ _ _ _ r ⟨r, by simp, rfl⟩⟩
+
+/-! ### what the extended configurator means -/
+
+theorem map_snd_false : ∀ l : List P, (l.map (fun r => ((false : Bool), r))).map (·.2) = l
+  | [] => rfl
+  | x :: l => by simp [map_snd_false l]
+
+/-- **the extended configurator holds exactly when the old rules and the new rule hold** (rules pairwise distinct, as a
+    validated configurator's are; every rule evaluates to 0 or 1): `add` conjoins the new rule and changes nothing else -/
+theorem add_semantics (σ : String → Int) (i b s v ks m) (r c' : P) (h : add (.node i b s v ks m) r = some c')
+    (hd : distinctCount ((ks ++ [r]).map (fun k => ((false : Bool), k))) = (ks ++ [r]).length)
+    (h01 : ∀ k ∈ ks ++ [r], evalPt σ k = 0 ∨ evalPt σ k = 1) :
+    evalPt σ c' = if sumPt σ ks = ks.length ∧ evalPt σ r = 1 then 1 else 0 := by
+  rw [add_eq_mk i b s v ks m r c' h]
+  have hsum : ∀ l : List P, (∀ k ∈ l, evalPt σ k = 0 ∨ evalPt σ k = 1) → 0 ≤ sumPt σ l ∧ sumPt σ l ≤ l.length := by
+    intro l
+    induction l with
+    | nil => intro _; simp [sumPt]
+    | cons x l ih =>
+        intro hx
+        have := ih (fun k hk => hx k (by simp [hk]))
+        have hx0 := hx x (by simp)
+        simp only [sumPt, List.length_cons]
+        rcases hx0 with h | h <;> omega
+  have hall := hsum (ks ++ [r]) h01
+  have hks := hsum ks (fun k hk => h01 k (by simp [hk]))
+  have hr := h01 r (by simp)
+  unfold mkStingy
+  rw [C04.evalPt_mkAll σ _ (some i) .stingy (by simpa using hd) (by rw [map_snd_false]; simpa using hall)]
+  rw [map_snd_false]
+  clear hall hd
+  simp only [List.length_map, P.sumPt_append, sumPt, List.length_append, List.length_cons, List.length_nil]
+  rcases hr with hr | hr <;> simp only [hr]
+  · simp
+    omega
+  · by_cases h2 : sumPt σ ks = (ks.length : Int)
+    · simp [h2]
+    · simp [h2]
 
 end Puan.C18
